@@ -33,8 +33,9 @@ MergeRecs(S) == IF S = {} THEN <<>>
                      IN <<m>> \o MergeRecs(S \ {m})
 \* the window: --start and --end, or --end and --since (start = end - since); `since` is whole seconds, 0 when --start is given
 WStart(c) == IF Fld(c, "since", 0) > 0 THEN <<c.end[1] - c.since, 0>> ELSE c.start
+SeqRange(q) == {q[k] : k \in DOMAIN q}
 Merged(c) == LET sel == DS!Selected(c.ctrs, c.sel)
-                 all == UNION {{CtrRecords(c.ctrs, i, WStart(c), c.end)[k] : k \in DOMAIN CtrRecords(c.ctrs, i, WStart(c), c.end)} : i \in sel}
+                 all == UNION {SeqRange(CtrRecords(c.ctrs, i, WStart(c), c.end)) : i \in sel}
              IN MergeRecs(all)
 
 \* the entries the query returns (the selector was applied to containers: the engine has nothing left to prefilter)
@@ -49,9 +50,9 @@ CaseWellFormed(c) == /\ \A i \in DOMAIN c.ctrs : DS!Unambiguous(c.ctrs[i])
                      /\ \A k \in DOMAIN c.stages : StageWellFormed(c.stages[k]) /\ c.stages[k].t \in {"line", "label", "drop", "keep", "labelfmt", "linefmt"}
                      /\ UnambiguousText(c.stages)
                      \* every step of the pipeline lies inside the modelled grammar
-                     /\ \A k \in DOMAIN LogResult(<<>>, c.stages, Merged(c)) :
-                          LET e == LogResult(<<>>, c.stages, Merged(c))[k] IN ~e.open /\ ~e.lopen /\ e.vopen = {} /\ e.opt = {}
-                     /\ ~AnyOpen(<<>>, c.stages, Merged(c))
+                     /\ LET m == Merged(c) res == LogResult(<<>>, c.stages, m) IN
+                        /\ \A k \in DOMAIN res : ~res[k].open /\ ~res[k].lopen /\ res[k].vopen = {} /\ res[k].opt = {}
+                        /\ ~AnyOpen(<<>>, c.stages, m)
                      /\ c.start[2] = 0 /\ c.end[2] = 0 /\ Fld(c, "since", 0) >= 0
                      /\ \A i \in DOMAIN c.ctrs : \A j \in DOMAIN c.ctrs[i].frames :
                           LET t == c.ctrs[i].frames[j].ts[1] IN
